@@ -53,6 +53,7 @@ def rule_H4(ctx):
         else:
             r.fail(key, f'{what}: delegation to {callee}', f'the {what} route builds bits without {callee}()', loc=f.loc())
     # registry property installation
+    import re as _re1
     for nm in ('add_dtype', 'add_dtype_alias'):
         f = m.funcs.get(f'dtypes:Register.{nm}')
         if f is None:
@@ -62,19 +63,21 @@ def rule_H4(ctx):
             raise AnalysisError(f'Register.{nm}: property installs not recognised')
         for p in props:
             kw = {k.arg: ast.unparse(k.value) for k in p.keywords}
-            if kw.get('fget') != 'definition.get_fn' or ('fset' in kw and kw['fset'] != 'definition.set_fn'):
+            if not _re1.fullmatch(r'\w+\.get_fn', kw.get('fget') or '') or ('fset' in kw and not _re1.fullmatch(r'\w+\.set_fn', kw['fset'])) \
+                    or ('fset' in kw and kw['fset'].split('.')[0] != kw['fget'].split('.')[0]):
                 r.fail(f.key, p, 'the installed property must read through definition.get_fn and write through definition.set_fn', loc=f.loc(p))
             else:
                 r.ok(p)
     # Dtype._create: bit length = length * multiplier; length passed to the setter is the bit length
     cr = m.funcs.get('dtypes:Dtype._create')
     txt = ast.unparse(cr.node)
-    if 'x._bitlength *= x._bits_per_item' not in txt and 'length * ' not in txt:
+    import re as _re0
+    if not _re0.search(r'(\w+)\._bitlength \*= \1\._bits_per_item', txt) and 'length * ' not in txt:
         raise AnalysisError('Dtype._create: bit-length computation not recognised (needs a human)')
     parts = [x for x in own_walk(cr.node) if isinstance(x, ast.Call) and ast.unparse(x.func) == 'functools.partial']
     for p in parts:
         kw = {k.arg: ast.unparse(k.value) for k in p.keywords}
-        if kw.get('length') != 'x._bitlength':
+        if not _re0.fullmatch(r'\w+\._bitlength', kw.get('length') or ''):
             r.fail(cr.key, p, 'the setter/reader of a sized dtype must be bound to the length in bits', loc=cr.loc(p))
         else:
             r.ok(p)
@@ -215,8 +218,10 @@ def rule_ESC(ctx):
                 ok = False
                 if owner is not None and owner.key == 'bitstring_options:Colour.__new__':
                     for i in own_walk(owner.node):
-                        if isinstance(i, ast.If) and ast.unparse(i.test) == 'use_colour' and any(x is y for b in i.body for y in ast.walk(b)):
-                            ok = True
+                        if isinstance(i, ast.If):
+                            pt, pbody, _pelse = G.pos_if(i)
+                            if ast.unparse(pt) == 'use_colour' and any(x is y for b in pbody for y in ast.walk(b)):
+                                ok = True
                 if ok:
                     r.ok(None)
                 else:
@@ -228,13 +233,14 @@ def rule_ESC(ctx):
     cn = m.funcs.get('bitstring_options:Colour.__new__')
     if cn is None:
         raise AnalysisError('anchor vanished: Colour.__new__')
-    top = [i for i in own_walk(cn.node) if isinstance(i, ast.If) and ast.unparse(i.test) == 'use_colour']
-    if not top or not top[0].orelse:
+    top = [i for i in own_walk(cn.node) if isinstance(i, ast.If) and ast.unparse(G.pos_if(i)[0]) == 'use_colour']
+    on_body, off_body = (G.pos_if(top[0])[1], G.pos_if(top[0])[2]) if top else ([], [])
+    if not top or not off_body or not on_body:
         r.fail(cn.key, 'else branch', 'Colour must define empty colour strings when colour is off', loc=cn.loc())
     else:
-        vals = [y.value for s in top[0].orelse for y in ast.walk(s) if isinstance(y, ast.Constant) and isinstance(y.value, str)]
-        names_if = {ast.unparse(t) for s in top[0].body for y in ast.walk(s) if isinstance(y, ast.Assign) for t in y.targets}
-        names_else = {ast.unparse(t) for s in top[0].orelse for y in ast.walk(s) if isinstance(y, ast.Assign) for t in y.targets}
+        vals = [y.value for s in off_body for y in ast.walk(s) if isinstance(y, ast.Constant) and isinstance(y.value, str)]
+        names_if = {ast.unparse(t) for s in on_body for y in ast.walk(s) if isinstance(y, ast.Assign) for t in y.targets}
+        names_else = {ast.unparse(t) for s in off_body for y in ast.walk(s) if isinstance(y, ast.Assign) for t in y.targets}
         if any(vals) or names_if != names_else:
             r.fail(cn.key, 'else branch values', 'with colour off every colour attribute must be the empty string', loc=cn.loc(top[0]))
         else:
